@@ -1,7 +1,7 @@
 """Which jobs and extra checks decide which property (the sidecar's table of contents)."""
 import importlib
 
-JOB_MODULES = ["contracts.jobs_basic", "contracts.jobs_multi", "contracts.jobs_classes", "contracts.jobs_context", "contracts.jobs_asynctools", "contracts.jobs_core", "contracts.jobs_lru", "contracts.jobs_cached_property"]
+JOB_MODULES = ["contracts.jobs_basic", "contracts.jobs_multi", "contracts.jobs_classes", "contracts.jobs_context", "contracts.jobs_asynctools", "contracts.jobs_core", "contracts.jobs_lru", "contracts.jobs_cached_property", "contracts.jobs_tee"]
 CANARY = "contracts.jobs_canary"
 
 _cache = {}
@@ -67,6 +67,11 @@ PROPS = {
     "C08": dict(level="proof", canaries=[(CANARY, "canary:filter-yields-before-test")],
                 trusted_base=TB_COMMON + ["specification ScopeSpec/ScopedSpec (contracts/refs/ref_asynctools.py) written from the property", "nesting explored to depth 2 (an inner scope's iterator is the outer handle, whose aclose is a no-op: deeper nesting repeats the same step)"],
                 explanation="histories inside the block (next, close, closing tool, nested scope enter/exit) and both exit kinds (normal / BaseException as for cancellation): the underlying iterator's close counter is 0 after every operation inside the block, exactly 1 after leaving the outermost scope, and the handle yields nothing afterwards"),
+    "C09": dict(level="proof", canaries=[(CANARY, "canary:filter-yields-before-test")],
+                trusted_base=TB_COMMON + ["ghost state: hist = sequence of items the source answered, y_p = number of items child p yielded",
+                                          "deque/list contract (append, popleft, pop(idx), identity search) of the interpreter; z3 sequence theory with cvc5 --strings-exp as second back end for queries z3 leaves unknown",
+                                          "cooperative scheduling: children interleave at yields (consumer loop) and, with a lock, at the lock and inside the source"],
+                explanation="Owicki-Gries invariant over the real tee_peer/_TeePeer/Tee code: for every registered child buffer_p = hist[y_p:]; each advance yields hist[y_p]; a child ends only after the full sequence; finished/closed children are unregistered (stop buffering) and the source is closed exactly when no child is left; any interleaving of next/close operations of the children (consumer loop = cut point) and any stream length"),
     "C10": dict(level="proof", canaries=[(CANARY, "canary:max-last-of-ties")], extra=[extras.callkey_partition],
                 trusted_base=TB_COMMON + ["abstract LRU view contracts/refs/ref_lru.py = functools.lru_cache (written from Lib/functools.py, validated differentially)",
                                           "dict / OrderedDict contract of pyvc/odmodel.py (insertion order, move_to_end, popitem(last=False), lookup by key equality)",
@@ -110,6 +115,10 @@ PROPS = {
     "C17": dict(level="proof", canaries=[(CANARY, "canary:filter-yields-before-test")], extra=[typing_pass.effect_pass],
                 trusted_base=TB_COMMON + ["`await x` for a user awaitable passes loop traffic through unchanged (language semantics of await = yield from, A4): assumed, not proved"],
                 explanation="effect typing: on every explored path of every job each `await` operand is a library coroutine / library generator method / library awaitable object (recursively typed) or an awaitable supplied by the user; statically: no asyncio import beyond iscoroutinefunction, no loop/sleep/lock/task primitive, no manual send/throw, no executable yield in a library __await__"),
+    "C20": dict(level="proof", canaries=[(CANARY, "canary:filter-yields-before-test")],
+                trusted_base=TB_COMMON + ["CPython frees an object when its last reference disappears; evaluation-stack temporaries do not outlive a statement; frame locals and containers reachable from them are the only roots a tool holds (generator-finaliser / GC effects not modelled)",
+                                          "documented accumulators are exempt: cycle, sorted, list/tuple/set/dict builders; tee retains hist[min y_p:] = the lead (its invariant is proved under C09)"],
+                explanation="retain obligations at every loop head of every streaming tool and single-pass aggregation (each iteration passes one): the item-valued locals are a fixed finite set (count reported) and every container of items obeys the declared window as a loop invariant (batched: n; others: no symbolic-length container at all); for tee: every buffer is hist[y_p:] and nothing is buffered for a finished child"),
     "C18": dict(level="proof", canaries=[(CANARY, "canary:enumerate-leaks-source")], trusted_base=TB_COMMON,
                 explanation="cancellation (BaseException thrown in at every suspension point): same exception propagates, sources released"),
 }
